@@ -701,7 +701,7 @@ func ratFloat(r *big.Rat) float64 { f, _ := r.Float64(); return f }
 // monotonicity: re-run with one message enlarged / its cycle shortened
 func (s *state) monotone(r *rng, b bspec, load *big.Rat) {
 	msgs := b.msgs()
-	if len(msgs) == 0 || b.def <= 0 || b.typ != 0 || (load == nil && b.baud != 0) {
+	if len(msgs) == 0 || b.def <= 0 || (load == nil && b.baud != 0) {
 		return
 	}
 	// the property claims this for every non-zero baud rate; the theorems need 0 < baud
@@ -909,6 +909,28 @@ func (r *rng) genBus() bspec {
 	}
 	b.ifaces = r.distribute(ms)
 	r.decorate(&b)
+	// an undefined bus type value now and then (frame constants 0; the theorems about monotonicity
+	// and the float link cover it): at least one non-empty message, so that the total is not 0
+	if r.below(30) == 0 && len(ms) > 0 {
+		b.typ = 1 + r.below(3)
+		for i := range b.ifaces {
+			for j := range b.ifaces[i] {
+				if b.ifaces[i][j].size == 0 && r.below(3) > 0 {
+					b.ifaces[i][j].size = 1 + r.below(8)
+				}
+			}
+		}
+		if len(b.ifaces) > 0 {
+			for i := range b.ifaces {
+				if len(b.ifaces[i]) > 0 {
+					if b.ifaces[i][0].size == 0 {
+						b.ifaces[i][0].size = 1 + r.below(8)
+					}
+					break
+				}
+			}
+		}
+	}
 	return b
 }
 
